@@ -28,6 +28,9 @@ def run(prop):
     if prop == "C19":
         import cases_family
         return cases_family.c19()
+    if prop == "C09":
+        import c09
+        return c09.check()
     if prop == "C12":
         import c12
         return c12.check()
